@@ -3,7 +3,7 @@ import os
 
 import mcd
 import mcdgen
-from mcdcheck import EngineDCheck, abort_class, hash_of, loop_msg
+from mcdcheck import EngineDCheck, abort_class, abort_msg, hash_of, loop_msg
 from rng import Rng
 
 
@@ -12,7 +12,8 @@ class C40(EngineDCheck):
     rule = ('seeded programs of the C38 generator without assertions, resources balanced, size bound <= 120 so that the '
             'unreduced exploration is exhaustive. simgrid-mc runs with reduction none and with odpor (DFS, plus a seeded '
             'BeFS / uniform-strategy variant), traces printed at verbose level, odpor also with model-check/debug-'
-            'optimality. Programs on which any exploration reports a deadlock / assertion / crash (a soft-locked state) '
+            'optimality when every transition of the program has a single value (the checker\'s own verification takes two '
+            'executions that differ only by the value of a MC_random / waitany for equivalent). Programs on which any exploration reports a deadlock / assertion / crash (a soft-locked state) '
             'are outside the quantifier. Every complete execution printed by none and by odpor is replayed by walker D '
             'with mcinfo: the executed transitions are rebuilt through the real serialize / deserialize code and the '
             'pairwise dispatch_depends matrix is logged; the Mazurkiewicz class of an execution is its Foata normal form '
@@ -64,7 +65,7 @@ class C40(EngineDCheck):
                         viol.append(('loop_' + r['red'], loop_msg(r)))
                     elif not r['timed_out'] and not r['stalled'] and not r['unsupported']:
                         viol.append((abort_class(r), 'simgrid-mc %s ended with status %s: %s' %
-                                     (r['config'], r['rc'], ' | '.join(r['criticals'][:2]) or r['stderr_tail'][-300:])))
+                                     (r['config'], r['rc'], abort_msg(r) if r['criticals'] else r['stderr_tail'][-300:])))
                     judged = False
                 if r['truncated_paths']:
                     judged = False
